@@ -1,4 +1,6 @@
 import Jose.Lemmas.Entity
+import Jose.Jws
+import Jose.Props.C10
 /-
   C15 — header merge precedence (part 1: the merge itself; part 2, "the algorithm used
   is the one recorded", is stated over the JWS/JWE producing models below).
@@ -7,7 +9,7 @@ set_option linter.unusedSimpArgs false
 set_option linter.unusedVariables false
 
 namespace Jose.Props.C15
-open Jose Jose.Entity Jose.Json
+open Jose Jose.Entity Jose.Json Jose.Jws Jose.Tables
 
 /-- C15 (JWS): a protected parameter hides an unprotected one of the same name -/
 theorem precedence_jws (sig h : Json) (hh : jwsHdr sig = some h) (name : String) :
@@ -81,6 +83,68 @@ theorem unusable_header_fails (sig : Json) :
     cases protectedObj sig with
     | none => rfl
     | some p => cases v <;> simp_all [Json.isObject]
+
+
+/-! ### the algorithm applied is the one recorded: ECDSA names bind the curve
+
+  RFC 7518 §3.4: ES256 / ES384 / ES512 / ES256K are ECDSA over P-256 / P-384 / P-521 /
+  secp256k1 with the matching hash.  A signature produced (or accepted) under one of these
+  names with a key on another curve is *not* that algorithm, whatever the header says. -/
+
+/-- signing under an ECDSA name happens only with a key on the curve the name stands for,
+    and the primitive is run on that curve -/
+theorem ecdsa_sign_on_named_curve (P : Prims) (name crv h : String) (jwk : Json) (f : Bs → Bs → Option Bs)
+    (hf : family name = some (.ecdsa crv h)) (hs : sigLeaf P name jwk = some f) :
+    ∃ key, ecKeyOf P jwk = some key ∧ key.crv = crv := by
+  simp only [sigLeaf, hf] at hs
+  split at hs
+  · simp at hs
+  · rename_i hcrv
+    split at hs
+    · rename_i hfun key _ hk
+      have hm := (C10.ec_key_members P jwk key hk).2.1
+      simp only [onAlgCurve, Bool.not_eq_true, Bool.not_eq_false', beq_iff_eq] at hcrv
+      refine ⟨key, hk, ?_⟩
+      rw [hm] at hcrv
+      exact Option.some.inj hcrv
+    · simp at hs
+
+/-- verification under an ECDSA name likewise -/
+theorem ecdsa_verify_on_named_curve (P : Prims) (crv h : String) (s jwk : Json) (f : Bs → Bool)
+    (hv : ecdsaVer P crv h s jwk = some f) :
+    ∃ key, ecKeyOf P jwk = some key ∧ key.crv = crv := by
+  simp only [ecdsaVer] at hv
+  split at hv
+  · simp at hv
+  · rename_i hcrv
+    simp only [Option.bind_eq_some_iff, Option.map_eq_some_iff] at hv
+    obtain ⟨_, _, key, hk, _⟩ := hv
+    have hm := (C10.ec_key_members P jwk key hk).2.1
+    simp only [onAlgCurve, Bool.not_eq_true, Bool.not_eq_false', beq_iff_eq] at hcrv
+    refine ⟨key, hk, ?_⟩
+    rw [hm] at hcrv
+    exact Option.some.inj hcrv
+
+/-- the curve the model attaches to each registered ECDSA name is the curve the key
+    generator (PREP hook, regenerated table) produces for that name, and the hash is the
+    RFC's: ES256→(P-256,S256), ES384→(P-384,S384), ES512→(P-521,S512), ES256K→(secp256k1,S256) -/
+theorem ecdsa_names_table :
+    (∀ a ∈ signAlgs, ∀ crv h, family a.name = some (.ecdsa crv h) →
+      ((prepTable.find? (fun r => r.alg == a.name)).bind (·.crv)) = some crv) ∧
+    family "ES256" = some (.ecdsa "P-256" "S256") ∧ family "ES384" = some (.ecdsa "P-384" "S384") ∧
+    family "ES512" = some (.ecdsa "P-521" "S512") ∧ family "ES256K" = some (.ecdsa "secp256k1" "S256") := by
+  refine ⟨?_, rfl, rfl, rfl, rfl⟩
+  intro a ha crv h hfam
+  have hall : (signAlgs.all fun a => match family a.name with
+      | some (.ecdsa crv _) => ((prepTable.find? (fun r => r.alg == a.name)).bind (·.crv)) == some crv
+      | _ => true) = true := by decide
+  have := List.all_eq_true.mp hall a ha
+  simp only [hfam, beq_iff_eq] at this
+  exact this
+
+/-- non-vacuity: a P-384 key is refused under ES256 whatever the primitives say -/
+example (P : Prims) : sigLeaf P "ES256" (.obj [("kty", .str "EC"), ("crv", .str "P-384"), ("x", .str "AA"), ("y", .str "AA")]) = none := by
+  simp [sigLeaf, family, onAlgCurve, Json.getStr?, Json.get?, Json.strVal?, lookup]
 
 /-- non-vacuity -/
 example : jwsHdr (.obj [("protected", .obj [("alg", .str "P")]), ("header", .obj [("alg", .str "H"), ("kid", .int 1)])])
